@@ -392,19 +392,7 @@ def run_server(case):
 
 
 def classify(case):
-    """known-defect classes, decided on the input alone"""
-    n = len(case["value"]) // 2
-    if case["kind"] == "read":
-        if n > case["in"] - 16:
-            return "seg-upload"
-        return None
-    if case["sub"] is None or n > 4:
-        return "normal-download"
-    if n == 0:
-        return "zero-expedited"
-    s0 = case["sched"][0] if case["sched"] else None
-    if s0 is not None and len(s0["pre"]) - (1 if s0["full"] else 0) >= 1:
-        return "interleave-download"
+    """known-defect classes, decided on the input alone: none are left since the fix: commits 7fef356 / a0eb33f"""
     return None
 
 
@@ -768,9 +756,10 @@ def run(ctx):
             # a failure is attributed to its class only when the code showed exactly the modelled defect
             oracle(buffer, c, *orc, attributed=same)
     if model is not None:
-        for w in witnesses:           # the recorded defect behaviour is what the model says today
-            i = next(k for k, ch in enumerate(checks) if ch[1] == {k2: v for k2, v in w.items() if k2 != "expect"})
-            ctx.agree("recorded behaviour of a known finding vs model", w, w.get("expect"), model[i])
+        for w in witnesses:           # a witness that still records a defect behaviour: it is what the model says today
+            if "expect" in w:
+                i = next(k for k, ch in enumerate(checks) if ch[1] == {k2: v for k2, v in w.items() if k2 != "expect"})
+                ctx.agree("recorded behaviour of a known finding vs model", w, w["expect"], model[i])
     # ctx keeps the first 50 failures only: report the unattributed ones first, then a few per known class
     # order: outside every known class, then inside a class but not the recorded behaviour, then the known ones
     found.sort(key=lambda f: (f[0] is not None) * 2 + (f[0] is None and classify(f[2]) is not None))
